@@ -603,7 +603,8 @@ PROPS["C20"] = {
 
 PROPS["C02"] = {
     "title": "Curve-curve intersection is sound and complete in either argument order",
-    "gen_modules": ["Consts", "Basis", "Section", "Bounds", "CurveBounds", "Lines", "FatLine", "CurveClip"],
+    "gen_modules": ["Consts", "Basis", "Section", "Bounds", "CurveBounds", "Lines", "FatLine", "CurveClip", "Overlaps"],
+    "props_modules": ["C02", "C02Overlap"],
     "corr_n": (20000, 200000),
     "search_n": (3000, 60000),
     "extended_factor": 2,
@@ -625,7 +626,12 @@ PROPS["C02"] = {
                   "(7) recursion_bounded / recursion_depth_irrelevant: the recursion is at most 20 deep (every split halves a section of parameter length >= 0.001, clipping never lengthens one), so the depth "
                   "parameter of the model is irrelevant from 21 on. "
                   "The generated function reproduces curve_intersects_curve_clip bit for bit at Float (every returned pair, both accuracies, all input classes). "
-                  "NOT proved: that the answers of the linear fall-back and of the overlap shortcut are right (external cubic solver; in practice every transversal crossing is reported through the fall-back - the loop's "
+                  "(8) THE OVERLAP SHORTCUT (Props/C02Overlap, Gen/Overlaps - overlapping_region with its three inner functions and solve_curve_for_t_along_axis, i.e. t_for_point, are generated; "
+                  "solve_basis_for_t, which ends in the roots crate, is a parameter): solve_for_t_sound / tForPoint_sound - for ANY root solver, t_for_point only answers a parameter in [-0.001,1.001] offered by the "
+                  "solver whose curve point is within 0.05 of the point asked for, or exactly 0 / 1 for a point within 1e-9 of an end (repair F23); overlapping_region_origin - each reported pair of parameters is "
+                  "an end point of one curve located on the other by t_for_point, and neither parameter pair is a single point; overlap_answer_points_close - hence the two points of each pair the shortcut reports "
+                  "are within 0.05 of each other; overlapping_region_eq (choose first pair, choose second pair, common tail). Both generated functions reproduce the real ones bit for bit (ops tfp, ovl). "
+                  "NOT proved: that the answers of the linear fall-back are right and that the overlap shortcut fires only for genuinely overlapping curves (its control-point comparison; external cubic solver; in practice every transversal crossing is reported through the fall-back - the loop's "
                   "own exit is taken in 20 of 200 000 correspondence cases, all of them overlapping pieces of one curve), termination, and therefore completeness and argument-order symmetry as such: these are decided on the real code by the search "
                   "(hull-subdivision + Newton oracle, both orders, accuracies 0.01 and 0.001), which also follows every required crossing through a shadow of the recursion and reports the named step that lost it.",
     "level_note": "Exact arithmetic (binary64 rounding bounded by the bit-exact mirror only). Repaired defect (bf6845a, hooks/fix_overlap_shortcut.diff): the overlap shortcut used to run in every recursive "
